@@ -243,6 +243,8 @@ def run(chk, prog):
     # what a traversing packet calls
     uic = u.func("DensitySubGrid::update_intensity_counters")
     chk.analysed(function=uic["full"])
+    # helpers of the subgrid that it hands the increments to (a per-ion helper, say) are read in place
+    uic = C.with_inlined_helpers(uic, [m_ for m_ in u.methods_of("DensitySubGrid") if m_.get("body") is not None])
     called = {x["n"] for x in C.walk_stmt(uic["body"]) if C.is_call(x, cls="IonizationVariables")}
     n += 1
     chk.require({"increase_mean_intensity", "increase_heating"} <= called, "D5",
